@@ -256,12 +256,20 @@ func TestVerifC16_Validate(t *testing.T) {
 		}
 		orig, nb := chain.hdrs[pick], chain.hdrs[nbIdx]
 
-		nmut := rapid.SampledFrom([]int{0, 1, 1, 1, 1, 2, 2, 3}).Draw(t, "nmut")
 		m := &c16Mut{t: t, env: env, h: cloneEH(orig), orig: orig, nb: nb, onlyBenign: true}
-		for i := 0; i < nmut; i++ {
-			m.applyOne(i)
-		}
-		if nmut > 0 {
+		nmut := 0
+		switch rapid.SampledFrom([]string{"untouched", "sigdrop", "sigdrop", "mutate", "mutate", "mutate", "mutate", "mutate", "mutate"}).Draw(t, "mode") {
+		case "untouched":
+		case "sigdrop": // only proper signature drops / honest nil votes: benign while more than 2/3 remain
+			nmut = rapid.IntRange(1, 3).Draw(t, "ndrop")
+			for i := 0; i < nmut; i++ {
+				m.mutSigBenign(fmt.Sprintf("d%d", i))
+			}
+		default:
+			nmut = rapid.SampledFrom([]int{1, 1, 1, 1, 2, 2, 3}).Draw(t, "nmut")
+			for i := 0; i < nmut; i++ {
+				m.applyOne(i)
+			}
 			m.applyFixups()
 		}
 		h := m.h
@@ -349,6 +357,9 @@ func TestVerifC16_Validate(t *testing.T) {
 		}
 		if ref.exact23 {
 			labels = append(labels, "tally=exactly-two-thirds")
+		}
+		if m.onlyBenign && nmut > 0 && !ref.ok() {
+			labels = append(labels, "sigdrop-below-two-thirds")
 		}
 		labels = append(labels, fmt.Sprintf("nvals=%d", len(orig.ValidatorSet.Validators)), fmt.Sprintf("nmut=%d", nmut),
 			"setchange="+chain.chg[min(pick, len(chain.chg)-1)])
